@@ -863,7 +863,16 @@ func postprocessIOSACL(c *cmd) {
 	// Skip "deny|permit"
 	parts := tokens[1:]
 	// Variables 'tokens' and 'parts' use same backing store.
+	orig := slices.Clone(tokens)
 	postprocessACLParts(c, parts)
+	// Object-groups of IOS aren't parsed.
+	// Leave name of object-group unchanged in command.
+	for i, w := range tokens {
+		if w == "$REF" {
+			tokens[i] = orig[i]
+		}
+	}
+	c.ref = nil
 	tokens = slices.DeleteFunc(tokens, func(w string) bool { return w == "" })
 	c.parsed = strings.Join(tokens, " ")
 }
